@@ -341,10 +341,48 @@ fn one_seg_history(lo: i64, hi: i64, len: usize, profile: u32, life: i64, rng: &
             _ => { let a = lo + rng.below(span as u64 + 1) as i64; (a, (a + rng.below(span as u64 / 2 + 1) as i64).min(hi)) }
         }
     };
+    // one injected panic of the expiration accessor per history, in every third history (C18)
+    let inj_at: Option<usize> = if len % 3 == 2 || rng.chance(1, 3) { Some(rng.below(len as u64) as usize) } else { None };
     for i in 0..len {
         if rng.chance(1, 4) { t += rng.range(0, 2); }
         let roll = rng.below(100);
         let p_ins = match profile { 0 => 55, 1 => 80, _ => 40 };
+        if inj_at == Some(i) {
+            let kinj = rng.below(12) as usize;
+            let (a, b) = pick(rng);
+            let is_ins = rng.chance(1, 2);
+            let id = 1_000_000 + i as i64;
+            let e = t + rng.range(0, life.max(1));
+            let op = if is_ins { Op::new("insert", &[a, b, id, e]) } else { Op::new("query", &[a, b, t, -1]) };
+            rec.push(Op::new("@inject", &[kinj as i64]));
+            rec.push(op.clone());
+            if flush { eprintln!("@op @inject {}", kinj); eprintln!("@op {}", op.text()); }
+            cb_reset(Some(kinj), false);
+            let res = std::panic::catch_unwind(std::panic::AssertUnwindSafe(|| c.apply(&op)));
+            cb_take();
+            n_ops += 1;
+            match res {
+                Ok(_) => { let l = rec.len(); rec.remove(l - 2); if is_ins { vals.push((a, b, id, e)); } }
+                Err(err) if err.is::<InjectedPanic>() => {
+                    if is_ins {
+                        // all or nothing: visible from the whole domain iff visible from each end of its range
+                        let seen = |c: &mut SegC, x: i64, y: i64, rec: &mut Vec<Op>| -> bool {
+                            let q = Op::new("query", &[x, y, t, -1]); rec.push(q.clone()); let o = c.apply(&q);
+                            o.trim_matches(|ch| ch == '[' || ch == ']').split(',').any(|s| s == id.to_string())
+                        };
+                        let whole = seen(&mut c, lo, hi, rec);
+                        let at_a = seen(&mut c, a, a, rec);
+                        let at_b = seen(&mut c, b, b, rec);
+                        n_ops += 3;
+                        if whole != at_a || whole != at_b { ops_done.fetch_add(n_ops, Ordering::Relaxed); return true; }
+                        if whole { vals.push((a, b, id, e)); }
+                        vals.retain(|v| v.3 >= t);
+                    }
+                }
+                Err(_) => { ops_done.fetch_add(n_ops, Ordering::Relaxed); return true; }
+            }
+            continue;
+        }
         if roll < p_ins {
             // profile 1: a hot spot that receives most of the values (long bucket lists)
             let (a, b) = if profile == 1 && rng.chance(3, 4) { (hot.0, hot.0) } else { pick(rng) };
@@ -437,7 +475,13 @@ pub fn fuzz_seg(out: &mut Out, seed: u64, millis: u64) -> (u64, bool) {
         // (the first recorded operation is the construction with the domain actually used)
         let (lo, hi) = (ops[0].a[0], ops[0].a[1]);
         let mut r = crate::seg::SegRunner::new(out, "fuzz-seg", lo, hi);
-        for op in &ops[1..] { r.step(op); if r.dead { break; } }
+        let mut pending: Option<usize> = None;
+        for op in &ops[1..] {
+            if op.name == "@inject" { pending = Some(op.a[0] as usize); continue; }
+            if let Some(kinj) = pending.take() { if !r.step_injected(op, kinj) { break; } continue; }
+            r.step(op);
+            if r.dead { break; }
+        }
         if r.out.oracle_fails == before {
             r.fail(&["C03", "C16"], "an answer / the stored copies along a long random history differ from the reference (high-volume differential run)", "the reference answer", "see the last operation of the history");
         }
